@@ -146,6 +146,37 @@ func RunScenario(t *testing.T, sc *Scenario) *Result {
 	return res
 }
 
+// runCustom executes a special world: body drives the runner instead of a step list. Replay is
+// by seed (the generator is a pure function of it).
+func runCustom(t *testing.T, sc *Scenario, body func(r *runner)) *Result {
+	res := &Result{Stats: map[string]int{}, Triggers: map[string]int{}, States: map[string]bool{}, Blocks: map[string]bool{}, Streams: map[string][]*streamItem{}, Sent: map[int][]byte{}, InS0: map[int]bool{}, RIDs: map[int]uint32{}}
+	defer func() {
+		if p := recover(); p != nil {
+			s := fmt.Sprint(p)
+			if strings.Contains(s, "deadlock") || strings.Contains(s, "blocked goroutines") {
+				res.Stats["bubble_leak"]++
+				return
+			}
+			panic(p)
+		}
+	}()
+	synctest.Test(t, func(t *testing.T) {
+		w := NewWorld(sc.World)
+		r := &runner{sc: sc, w: w, m: NewModel(sc.World.Modules), clients: map[int]*Client{}, res: res, dis: disabledTypes(sc.World.Flags), inappAt: map[int]int{}}
+		body(r)
+		r.stepIdx = 1 << 20
+		r.finish()
+		res.Digest = w.sim.Digest()
+		res.Stats = mergeStats(res.Stats, w.sim.Stats)
+		res.Steps = w.sim.Steps
+		res.SimTime = w.sim.Now()
+		res.Failure = w.sim.Failure
+		res.Trace = w.sim.Trace()
+		w.Close()
+	})
+	return res
+}
+
 func mergeStats(a, b map[string]int) map[string]int {
 	if a == nil {
 		a = map[string]int{}
